@@ -320,8 +320,9 @@ def run_case(ctx, rng, ci, cases, records, scratch_cases):
     records.append(rec)
     # certified from-scratch judgement of every cached table of the model
     scratch_cases.append(("scratch%d" % ci,
-                          "(search_scratch_b %s %s %s %s %s)" % (netl, sll, tl, fdl, coq(oracles) if oracles else "[]"),
-                          "true"))
+                          "(hyps_b %s %s %s, search_scratch_b %s %s %s %s %s)" % (
+                              netl, sll, tl, netl, sll, tl, fdl, coq(oracles) if oracles else "[]"),
+                          "(true, true)"))
     if stray_all:
         ctx.fail("ContractionCosts keeps reduction/_where entries for indices no longer in size_dict: %r"
                  % sorted(set(stray_all)), rec, found_input=False)
